@@ -59,6 +59,7 @@ if DESC.get("wf_link") and "working_dir" not in _kw:
     _kw["working_dir"] = HERE
 gwf = Workflow(**_kw)
 
+_SHARED = {}
 for t in DESC["targets"]:
     via = t.get("via") or ("template" if t.get("wd") else "target")
     opts = t.get("options") or {}
@@ -72,8 +73,12 @@ for t in DESC["targets"]:
             # rel_twd: the template names its directory relative to the current directory (only used when every
             # command is invoked from the directory of the workflow file, where that means the same as HERE/wd)
             kw["working_dir"] = t["wd"] if DESC.get("rel_twd") else os.path.join(HERE, t["wd"])
+        topts = t.get("template_options") or {}
+        if t.get("share"):
+            # several templates built around one options dictionary (a module-level OPTIONS = {...})
+            topts = _SHARED.setdefault(t["share"], topts)
         tpl = AnonymousTarget(inputs=dec(t.get("inputs", [])), outputs=dec(t.get("outputs", [])),
-                              options=t.get("template_options") or {}, protect=dec(t.get("protect", [])),
+                              options=topts, protect=dec(t.get("protect", [])),
                               spec=t.get("spec", ""), **kw)
         gwf.target_from_template(t["name"], tpl, **opts)
 
@@ -127,8 +132,9 @@ def bindir():
 
 
 class _FakePopen:
-    def __init__(self, sim, argv):
+    def __init__(self, sim, argv, kw=None):
         self.sim = sim
+        self.kw = kw or {}
         self.argv = argv
         self.args = argv
         self.returncode = None
@@ -143,6 +149,14 @@ class _FakePopen:
     def communicate(self, input=None, timeout=None):
         rc, out, err = self.sim.exec(self.argv, input or "")
         self.returncode = rc
+        # honour the redirections the caller asked for, like a real process would
+        how_err, how_out = self.kw.get("stderr"), self.kw.get("stdout")
+        if how_err == subprocess.STDOUT:
+            out, err = err + out, None  # notes and warnings are printed before the result
+        elif how_err != subprocess.PIPE:
+            err = None
+        if how_out != subprocess.PIPE:
+            out = None
         return out, err
 
     def wait(self, timeout=None):
@@ -457,7 +471,7 @@ class Project:
         def popen(argv, *a, **kw):
             if sim is not None and isinstance(argv, (list, tuple)) and argv and \
                     os.path.dirname(str(argv[0])) == bdir:
-                return _FakePopen(sim, [str(x) for x in argv])
+                return _FakePopen(sim, [str(x) for x in argv], kw)
             return saved_popen(argv, *a, **kw)
 
         events = []
